@@ -357,6 +357,16 @@ NEGATIVE = {
     'C19': ['selftest/negative/N10-r5-mapped-closure.patch', 'selftest/negative/R3N7-p1.patch', 'selftest/negative/R3N7-p2.patch', 'selftest/negative/R3N7-p3.patch', 'selftest/negative/R3N7-p4.patch'],
 }
 
+# round 5: bolder refactorings (named-role structs, helpers taking function values, pair vectors, Result-returning check helpers ...)
+_R5 = {'R5N1': ['C01', 'C02', 'C08', 'C12'], 'R5N2': ['C03', 'C05', 'C07', 'C08'], 'R5N3': ['C03', 'C04', 'C06', 'C09'], 'R5N4': ['C06', 'C09', 'C10', 'C11'],
+       'R5N5': ['C01', 'C02', 'C07', 'C10'], 'R5N6': ['C13', 'C18'], 'R5N7': ['C14', 'C15', 'C17', 'C19'], 'R5N8': ['C15', 'C16', 'C17']}
+for _g, _ps in _R5.items():
+    for _j in (1, 2, 3, 4):
+        _f = 'selftest/negative/%s-p%d.patch' % (_g, _j)
+        if os.path.exists(os.path.join(os.path.dirname(os.path.dirname(os.path.abspath(__file__))), _f)):
+            for _p in _ps:
+                NEGATIVE[_p].append(_f)
+
 # rules that are also evaluated on the other production configurations in the thorough tier (guards against feature-gated divergence)
 def thorough_extra(pid):
     R = []
